@@ -13,7 +13,7 @@ BUILD = os.environ.get("VERIF_BUILD", os.path.join(VERIF, "build"))
 GUARD = "ZCHUNK_VERIF"
 
 WRAPS = ["read", "write", "lseek", "lseek64", "close", "ftruncate", "ftruncate64",
-         "mkstemp", "mkstemp64", "unlink", "open", "open64"]
+         "mkstemp", "mkstemp64", "unlink", "open", "open64", "malloc", "calloc", "realloc"]
 
 # symbols from outside the repo that the repo objects may reference without being "owned" by the
 # seam: reviewed as deterministic given their arguments (memory, string, math, zstd, crypto, regex,
